@@ -39,6 +39,21 @@ let str_verdict = function
 let states_of_string s = List.map state_of_string (split ',' s)
 let sets_of_string s = if s = "-" || s = "" then [] else List.map states_of_string (String.split_on_char '/' s)
 
+let str_place (p : place) = (if snd p then "b1_" else "b0_") ^ string_of_int (int_of_nat (fst p))
+let str_places sep l = String.concat sep (List.sort compare (List.map str_place l))
+let str_rule = function
+  | RChoice a -> "{" ^ str_place a ^ "}."
+  | RConstraint b -> ":- " ^ str_places ", " b ^ "."
+  | RFact a -> str_place a ^ "."
+  | RDisj (h, []) -> str_places "; " h ^ "."
+  | RDisj (h, b) -> str_places "; " h ^ " :- " ^ str_places ", " b ^ "."
+  | RFalse -> "#false."
+let str_rules l = String.concat "|" (List.sort compare (List.map str_rule l))
+let str_trans (t : transition) =
+  Printf.sprintf "%d %s %s" (int_of_nat t.t_var) (if t.t_up then "up" else "down") (string_of_space t.t_cond)
+let str_pn (pn : pnet) = "vars=" ^ str_nats pn.p_vars ^ " trans=" ^
+  (if pn.p_trans = [] then "-" else String.concat "|" (List.sort compare (List.map str_trans pn.p_trans)))
+
 let dump (d : sd) =
   let ns = List.map (fun x ->
     Printf.sprintf "%s,%d,%d,%d,%s%s%s" (string_of_space x.n_space) (int_of_nat x.n_depth)
@@ -52,6 +67,7 @@ let () =
   let ic = if Array.length Sys.argv > 1 then open_in Sys.argv.(1) else stdin in
   let net = ref ([] : net) and cfg = ref (nat_of_int 100000) and fuel = ref (nat_of_int 100000) in
   let cur = ref { sd_nodes = []; sd_edges = [] } in
+  let pn = ref { p_vars = []; p_trans = [] } in
   let attrs : state list list option ref = ref None in
   let get_attrs () = match !attrs with Some a -> a | None -> let a = attractors_b !net in attrs := Some a; a in
   let read_bits l = List.init (String.length l) (fun i -> l.[i] = '1') in
@@ -77,6 +93,45 @@ let () =
            | "sources" -> str_nats (sources_b !net)
            | "conston" -> (match const_on_b !net (nat_of_int (int_of_string (a 1))) (space_of_string (a 2)) with
                            | None -> "n" | Some true -> "1" | Some false -> "0")
+           | "strict" -> string_of_space (percolate_strict_b !net (space_of_string (a 1)))
+           | "strictord" -> string_of_space (percolate_strict_ord !net (nats_of_string (a 1)) (space_of_string (a 2)))
+           | "conflicts" -> str_nats (conflicts_b !net (space_of_string (a 1)))
+           | "ldois" ->
+               let l = single_ldois !net in
+               if l = [] then "-" else String.concat " " (List.map (fun ((v, b), sp) ->
+                 Printf.sprintf "%d,%d,%s" (int_of_nat v) (if b then 1 else 0) (string_of_space sp)) l)
+           | "drivers" ->
+               let l = single_drivers !net (space_of_string (a 1)) in
+               if l = [] then "-" else String.concat " " (List.map (fun (v, b) -> Printf.sprintf "%d,%d" (int_of_nat v) (if b then 1 else 0)) l)
+           | "pnload" ->
+               let vars = nats_of_string (a 1) in
+               let k = int_of_string (a 2) in
+               let ts = List.init k (fun _ ->
+                 let f = Array.of_list (String.split_on_char ' ' (String.trim (input_line ic))) in
+                 { t_var = nat_of_int (int_of_string f.(0)); t_up = (f.(1) = "up"); t_cond = space_of_string f.(2) }) in
+               pn := { p_vars = vars; p_trans = ts }; "ok"
+           | "pnfaithful" -> if pn_faithful_b !net (space_of_string (a 1)) !pn then "1" else "0"
+           | "pnrestrict" -> str_pn (restrict_pn !pn (space_of_string (a 1)))
+           | "pnreduce" -> str_pn (reduce_pn !pn (space_of_string (a 1)))
+           | "pnsources" -> str_nats (pn_sources !pn)
+           | "pndump" -> str_pn !pn
+           | "trapprog" ->
+               let pb = (match a 1 with "min" -> PMin | "max" -> PMax | _ -> PFix) in
+               str_rules (trap_program pb (a 2 = "1") !pn (space_of_string (a 3)) (spaces_of_string (a 4)) (nats_of_string (a 5)))
+           | "deadprog" ->
+               str_rules (deadlock_program (reduce_pn !pn (space_of_string (a 1))) (space_of_string (a 2)) (spaces_of_string (a 3)))
+           | "control" ->
+               let mx = opt_nat (a 3) in
+               let res = succession_control !net !cur (space_of_string (a 1)) (a 2 = "all") mx (nats_of_string (a 4)) in
+               if res = [] then "-" else String.concat " " (List.map (fun ((succ, ctl), ok) ->
+                 (if succ = [] then "-" else String.concat ";" (List.map string_of_space succ)) ^ "!" ^
+                 (if ctl = [] then "-" else String.concat "/" (List.map (fun c -> if c = [] then "~" else String.concat ";" (List.sort compare (List.map string_of_space c))) ctl)) ^ "!" ^
+                 (if ok then "1" else "0")) res)
+           | "successions" ->
+               let res = successions !cur (space_of_string (a 1)) in
+               if res = [] then "none" else String.concat " " (List.map (fun succ -> if succ = [] then "-" else String.concat ";" (List.map string_of_space succ)) res)
+           | "forced" ->
+               if forced_b (override !net (space_of_string (a 1))) (space_of_string (a 2)) (space_of_string (a 3)) then "1" else "0"
            | "attractors" ->
                let l = get_attrs () in
                if l = [] then "-" else String.concat " " (List.map str_states l)
